@@ -6151,6 +6151,10 @@ write_function_instance(ostream &out, FunctionRemap *remap,
       bool is_const = true;
       CPPSimpleType *simple = nullptr;
       CPPType *unwrap = TypeManager::unwrap_const_reference(type);
+      while (unwrap != nullptr &&
+             unwrap->get_subtype() == CPPDeclaration::ST_typedef) {
+        unwrap = unwrap->as_typedef_type()->_type;
+      }
       if (unwrap != nullptr) {
         CPPArrayType *array_type = unwrap->as_array_type();
         CPPPointerType *pointer_type = unwrap->as_pointer_type();
